@@ -195,6 +195,9 @@ def faults_for_server(word, rt):
     return out
 
 
+DEFAULT_BUDGET = dict(total=10, connect=2, read=2, status=5)
+
+
 def has_stall(word):
     return any(f[0] == 'stall' for f in word)
 
@@ -243,8 +246,15 @@ def run_word_impl(s3, case):
     if not case.get('default_cfg'):
         # the documented meaning of retries=(connect, read) is what the model is given, not what the store made of it
         budget['connect'], budget['read'] = case['budget'].get('connect', 1), case['budget']['read']
+    else:
+        # the default configuration is a pinned table (model constant): retries=2 means 2 connect and 2 read retries,
+        # the store adds 5 status retries, and the joint count (10) binds only after each kind's own budget would have
+        store_budget_seen = dict(budget)
+        budget.update(DEFAULT_BUDGET)
     mode = case['mode']
     res = dict(budget=budget, force=force)
+    if case.get('default_cfg'):
+        res['store_budget'] = store_budget_seen
     if mode == 'chunk':
         slices, path = chunk_path(store, arr)
         body = npy_bytes(arr)
@@ -919,6 +929,15 @@ def gen_word_cases(ctx):
         arr_i = rng.randrange(len(ARRAYS))
         cases.append(dict(kind='word', mode=rng.choice(['chunk', 'chunk', 'rdb']), budget={}, default_cfg=True,
                           arr=arr_i, word=realise(rng, letters, body_len('chunk', arr_i))))
+    # directed, default configuration: mixed words that fit in the read budget (2) AND in the status budget (5) but
+    # count six or seven faults altogether (the joint budget is 10), and their over-budget neighbours
+    for letters in ([('S', 503)] * 4 + [('T',), ('R',)], [('T',)] + [('S', 500)] * 5, [('S', 502), ('T',), ('S', 504), ('R',),
+                    ('S', 500), ('S', 503), ('S', 503)], [('S', 503)] * 5 + [('R',), ('T',)], [('S', 503)] * 6,
+                    [('S', 500), ('T',), ('R',), ('T',)]):
+        for mode in ('chunk', 'rdb'):
+            arr_i = rng.randrange(len(ARRAYS))
+            cases.append(dict(kind='word', mode=mode, budget={}, default_cfg=True, arr=arr_i,
+                              word=realise(rng, list(letters), body_len('chunk', arr_i))))
     # is_complete / put_chunk: status faults only (empty body / request body)
     alpha = [('S', rng.choice(SPEC_FORCE)), ('N',), ('A', rng.choice([401, 403])), ('U', 501)]
     for mode in ('iscomplete', 'put'):
@@ -1002,7 +1021,7 @@ def gen_token_cases(ctx):
         var(hdr='HS256', sig='AAAA'), var(hdr='none', sig=''), var(hdr='noalg', sig='AAAAAA'),
         var(prefix=['zzz', BUCKET + '/x']), var(prefix=['']), var(prefix=[BUCKET[:3]]),
         # malformed / truncated
-        var(nparts=1), var(nparts=2), var(nparts=4),
+        var(nparts=1), var(nparts=2), var(nparts=4), var(nparts=0),      # nparts=0: the empty string as token
         var(sig='A' * 85), var(sig='A' * 87), var(sig='A' * 76), var(sig=''), var(sig='!' * 86),
         var(hdr='HS256', sig='AAAAA'),
         var(hdr='notjson'), var(hdr='notdict'), var(hdr='badb64'),
